@@ -72,6 +72,15 @@ def tiling_model(ctx):
                                         problem = f'fetch window {(fs, fe)} leaves the region'
                                     elif set(range(fs, fe)) & B:
                                         problem = f'fetch window {(fs, fe)} reaches into a blacklisted interval'
+                                    else:
+                                        # ... and is not smaller than it has to be: the margin is cut only by the ends of the free stretch the bin lies in (C08-R4)
+                                        gs, ge = a, b
+                                        while gs - 1 >= s_ and (gs - 1) not in B:
+                                            gs -= 1
+                                        while ge < e_ and ge not in B:
+                                            ge += 1
+                                        if (fs, fe) != (max(gs, a - F), min(ge, b + F)):
+                                            problem = f'fetch window {(fs, fe)} of bin {(a, b)} is not (max(gap start, bin start - F), min(gap end, bin end + F)) = {(max(gs, a - F), min(ge, b + F))}: the bin loses margin the gap allows'
                         if problem is None and sorted(cover + sorted(B)) != list(range(s_, e_)):
                             missing = sorted(set(range(s_, e_)) - set(cover) - B)
                             twice = sorted({x for x in cover if cover.count(x) > 1 or x in B})
